@@ -4,54 +4,54 @@ From Crux Require Import Cli.Format Cli.Pipeline.
 Import ListNotations.
 Open Scope string_scope.
 
-Definition i0 : item := mkItem ("crux_time", 0%N) (Some "0") KField false None (Some (FTypeName "CompletedTimerHandle")) None.
-Definition i1 : item := mkItem ("crux_time", 1%N) (Some "CompletedTimerHandle") (KStructPlain [126%N]) false None None None.
-Definition i2 : item := mkItem ("crux_time", 2%N) (Some "Completed") (KVariantTuple [0%N]) false None None None.
-Definition i3 : item := mkItem ("crux_time", 3%N) (Some "Cleared") KVariantPlain false None None None.
-Definition i4 : item := mkItem ("crux_time", 4%N) (Some "TimerOutcome") (KEnum [2%N; 3%N]) false None None None.
-Definition i5 : item := mkItem ("crux_time", 67%N) (Some "effect") KField false None (Some (FTypeName "PhantomData")) None.
-Definition i6 : item := mkItem ("crux_time", 70%N) (Some "event") KField false None (Some (FTypeName "PhantomData")) None.
-Definition i7 : item := mkItem ("crux_time", 71%N) (Some "Time") (KStructPlain [67%N; 70%N]) false None None None.
-Definition i8 : item := mkItem ("crux_time", 77%N) (Some "TimerHandle") (KStructPlain [96%N; 98%N]) false None None None.
-Definition i9 : item := mkItem ("crux_time", 82%N) (Some "TimeRequest") (KEnum [246%N; 249%N; 252%N; 254%N]) false None None None.
-Definition i10 : item := mkItem ("crux_time", 96%N) (Some "timer_id") KField false None (Some (FTypeName "TimerId")) None.
-Definition i11 : item := mkItem ("crux_time", 97%N) (Some "TimerId") (KStructTuple [288%N]) false None None None.
-Definition i12 : item := mkItem ("crux_time", 98%N) (Some "abort") KField false None (Some (FTypeName "Sender")) None.
-Definition i13 : item := mkItem ("crux_time", 126%N) (Some "timer_id") KField false None (Some (FTypeName "TimerId")) None.
-Definition i14 : item := mkItem ("crux_time", 153%N) (Some "nanos") KField false (Some "nanos") (Some (FPrim PU64)) None.
-Definition i15 : item := mkItem ("crux_time", 154%N) (Some "Duration") (KStructPlain [153%N]) false None None None.
-Definition i16 : item := mkItem ("crux_time", 207%N) (Some "seconds") KField false (Some "seconds") (Some (FPrim PU64)) None.
-Definition i17 : item := mkItem ("crux_time", 208%N) (Some "nanos") KField false (Some "nanos") (Some (FPrim PU32)) None.
-Definition i18 : item := mkItem ("crux_time", 209%N) (Some "Instant") (KStructPlain [207%N; 208%N]) false None None None.
-Definition i19 : item := mkItem ("crux_time", 246%N) (Some "Now") KVariantPlain false (Some "now") None None.
-Definition i20 : item := mkItem ("crux_time", 247%N) (Some "id") KField false (Some "id") (Some (FTypeName "TimerId")) None.
-Definition i21 : item := mkItem ("crux_time", 248%N) (Some "instant") KField false (Some "instant") (Some (FTypeName "Instant")) None.
-Definition i22 : item := mkItem ("crux_time", 249%N) (Some "NotifyAt") (KVariantStruct [247%N; 248%N]) false (Some "notifyAt") None None.
-Definition i23 : item := mkItem ("crux_time", 250%N) (Some "id") KField false (Some "id") (Some (FTypeName "TimerId")) None.
-Definition i24 : item := mkItem ("crux_time", 251%N) (Some "duration") KField false (Some "duration") (Some (FTypeName "Duration")) None.
-Definition i25 : item := mkItem ("crux_time", 252%N) (Some "NotifyAfter") (KVariantStruct [250%N; 251%N]) false (Some "notifyAfter") None None.
-Definition i26 : item := mkItem ("crux_time", 253%N) (Some "id") KField false (Some "id") (Some (FTypeName "TimerId")) None.
-Definition i27 : item := mkItem ("crux_time", 254%N) (Some "Clear") (KVariantStruct [253%N]) false (Some "clear") None None.
-Definition i28 : item := mkItem ("crux_time", 284%N) (Some "Output") KOther false None None None.
-Definition i29 : item := mkItem ("crux_time", 285%N) (Some "TimeResponse") (KEnum [324%N; 326%N; 328%N; 330%N]) false None None None.
-Definition i30 : item := mkItem ("crux_time", 288%N) (Some "0") KField false (Some "0") (Some (FPrim PU64)) None.
-Definition i31 : item := mkItem ("crux_time", 323%N) (Some "instant") KField false (Some "instant") (Some (FTypeName "Instant")) None.
-Definition i32 : item := mkItem ("crux_time", 324%N) (Some "Now") (KVariantStruct [323%N]) false (Some "now") None None.
-Definition i33 : item := mkItem ("crux_time", 325%N) (Some "id") KField false (Some "id") (Some (FTypeName "TimerId")) None.
-Definition i34 : item := mkItem ("crux_time", 326%N) (Some "InstantArrived") (KVariantStruct [325%N]) false (Some "instantArrived") None None.
-Definition i35 : item := mkItem ("crux_time", 327%N) (Some "id") KField false (Some "id") (Some (FTypeName "TimerId")) None.
-Definition i36 : item := mkItem ("crux_time", 328%N) (Some "DurationElapsed") (KVariantStruct [327%N]) false (Some "durationElapsed") None None.
-Definition i37 : item := mkItem ("crux_time", 329%N) (Some "id") KField false (Some "id") (Some (FTypeName "TimerId")) None.
-Definition i38 : item := mkItem ("crux_time", 330%N) (Some "Cleared") (KVariantStruct [329%N]) false (Some "cleared") None None.
-Definition i39 : item := mkItem ("crux_time", 368%N) (Some "context") KField false None (Some (FTypeName "CapabilityContext")) None.
-Definition i40 : item := mkItem ("crux_time", 370%N) (Some "Time") (KStructPlain [368%N]) false None None None.
-Definition i41 : item := mkItem ("crux_time", 378%N) (Some "TimerFuture") (KStructPlain [406%N; 407%N; 408%N]) false None None None.
-Definition i42 : item := mkItem ("crux_time", 398%N) (Some "Operation") KOther false None None None.
-Definition i43 : item := mkItem ("crux_time", 399%N) (Some "MappedSelf") KOther false None None None.
-Definition i44 : item := mkItem ("crux_time", 406%N) (Some "timer_id") KField false None (Some (FTypeName "TimerId")) None.
-Definition i45 : item := mkItem ("crux_time", 407%N) (Some "is_cleared") KField false None (Some (FPrim PBool)) None.
-Definition i46 : item := mkItem ("crux_time", 408%N) (Some "future") KField false None (Some FTodo) None.
-Definition i47 : item := mkItem ("crux_time", 431%N) (Some "Output") KOther false None None None.
+Definition i0 : item := mkItem ("crux_time", 0%N) (Some "0") (Some "0") KField false None (Some (FTypeName "CompletedTimerHandle")) None.
+Definition i1 : item := mkItem ("crux_time", 1%N) (Some "CompletedTimerHandle") (Some "CompletedTimerHandle") (KStructPlain [126%N]) false None None None.
+Definition i2 : item := mkItem ("crux_time", 2%N) (Some "Completed") (Some "Completed") (KVariantTuple [0%N]) false None None None.
+Definition i3 : item := mkItem ("crux_time", 3%N) (Some "Cleared") (Some "Cleared") KVariantPlain false None None None.
+Definition i4 : item := mkItem ("crux_time", 4%N) (Some "TimerOutcome") (Some "TimerOutcome") (KEnum [2%N; 3%N]) false None None None.
+Definition i5 : item := mkItem ("crux_time", 67%N) (Some "effect") (Some "effect") KField false None (Some (FTypeName "PhantomData")) None.
+Definition i6 : item := mkItem ("crux_time", 70%N) (Some "event") (Some "event") KField false None (Some (FTypeName "PhantomData")) None.
+Definition i7 : item := mkItem ("crux_time", 71%N) (Some "Time") (Some "Time") (KStructPlain [67%N; 70%N]) false None None None.
+Definition i8 : item := mkItem ("crux_time", 77%N) (Some "TimerHandle") (Some "TimerHandle") (KStructPlain [96%N; 98%N]) false None None None.
+Definition i9 : item := mkItem ("crux_time", 82%N) (Some "TimeRequest") (Some "TimeRequest") (KEnum [246%N; 249%N; 252%N; 254%N]) false None None None.
+Definition i10 : item := mkItem ("crux_time", 96%N) (Some "timer_id") (Some "timer_id") KField false None (Some (FTypeName "TimerId")) None.
+Definition i11 : item := mkItem ("crux_time", 97%N) (Some "TimerId") (Some "TimerId") (KStructTuple [288%N]) false None None None.
+Definition i12 : item := mkItem ("crux_time", 98%N) (Some "abort") (Some "abort") KField false None (Some (FTypeName "Sender")) None.
+Definition i13 : item := mkItem ("crux_time", 126%N) (Some "timer_id") (Some "timer_id") KField false None (Some (FTypeName "TimerId")) None.
+Definition i14 : item := mkItem ("crux_time", 153%N) (Some "nanos") (Some "nanos") KField false (Some "nanos") (Some (FPrim PU64)) None.
+Definition i15 : item := mkItem ("crux_time", 154%N) (Some "Duration") (Some "Duration") (KStructPlain [153%N]) false None None None.
+Definition i16 : item := mkItem ("crux_time", 207%N) (Some "seconds") (Some "seconds") KField false (Some "seconds") (Some (FPrim PU64)) None.
+Definition i17 : item := mkItem ("crux_time", 208%N) (Some "nanos") (Some "nanos") KField false (Some "nanos") (Some (FPrim PU32)) None.
+Definition i18 : item := mkItem ("crux_time", 209%N) (Some "Instant") (Some "Instant") (KStructPlain [207%N; 208%N]) false None None None.
+Definition i19 : item := mkItem ("crux_time", 246%N) (Some "Now") (Some "Now") KVariantPlain false (Some "now") None None.
+Definition i20 : item := mkItem ("crux_time", 247%N) (Some "id") (Some "id") KField false (Some "id") (Some (FTypeName "TimerId")) None.
+Definition i21 : item := mkItem ("crux_time", 248%N) (Some "instant") (Some "instant") KField false (Some "instant") (Some (FTypeName "Instant")) None.
+Definition i22 : item := mkItem ("crux_time", 249%N) (Some "NotifyAt") (Some "NotifyAt") (KVariantStruct [247%N; 248%N]) false (Some "notifyAt") None None.
+Definition i23 : item := mkItem ("crux_time", 250%N) (Some "id") (Some "id") KField false (Some "id") (Some (FTypeName "TimerId")) None.
+Definition i24 : item := mkItem ("crux_time", 251%N) (Some "duration") (Some "duration") KField false (Some "duration") (Some (FTypeName "Duration")) None.
+Definition i25 : item := mkItem ("crux_time", 252%N) (Some "NotifyAfter") (Some "NotifyAfter") (KVariantStruct [250%N; 251%N]) false (Some "notifyAfter") None None.
+Definition i26 : item := mkItem ("crux_time", 253%N) (Some "id") (Some "id") KField false (Some "id") (Some (FTypeName "TimerId")) None.
+Definition i27 : item := mkItem ("crux_time", 254%N) (Some "Clear") (Some "Clear") (KVariantStruct [253%N]) false (Some "clear") None None.
+Definition i28 : item := mkItem ("crux_time", 284%N) (Some "Output") (Some "Output") KOther false None None None.
+Definition i29 : item := mkItem ("crux_time", 285%N) (Some "TimeResponse") (Some "TimeResponse") (KEnum [324%N; 326%N; 328%N; 330%N]) false None None None.
+Definition i30 : item := mkItem ("crux_time", 288%N) (Some "0") (Some "0") KField false (Some "0") (Some (FPrim PU64)) None.
+Definition i31 : item := mkItem ("crux_time", 323%N) (Some "instant") (Some "instant") KField false (Some "instant") (Some (FTypeName "Instant")) None.
+Definition i32 : item := mkItem ("crux_time", 324%N) (Some "Now") (Some "Now") (KVariantStruct [323%N]) false (Some "now") None None.
+Definition i33 : item := mkItem ("crux_time", 325%N) (Some "id") (Some "id") KField false (Some "id") (Some (FTypeName "TimerId")) None.
+Definition i34 : item := mkItem ("crux_time", 326%N) (Some "InstantArrived") (Some "InstantArrived") (KVariantStruct [325%N]) false (Some "instantArrived") None None.
+Definition i35 : item := mkItem ("crux_time", 327%N) (Some "id") (Some "id") KField false (Some "id") (Some (FTypeName "TimerId")) None.
+Definition i36 : item := mkItem ("crux_time", 328%N) (Some "DurationElapsed") (Some "DurationElapsed") (KVariantStruct [327%N]) false (Some "durationElapsed") None None.
+Definition i37 : item := mkItem ("crux_time", 329%N) (Some "id") (Some "id") KField false (Some "id") (Some (FTypeName "TimerId")) None.
+Definition i38 : item := mkItem ("crux_time", 330%N) (Some "Cleared") (Some "Cleared") (KVariantStruct [329%N]) false (Some "cleared") None None.
+Definition i39 : item := mkItem ("crux_time", 368%N) (Some "context") (Some "context") KField false None (Some (FTypeName "CapabilityContext")) None.
+Definition i40 : item := mkItem ("crux_time", 370%N) (Some "Time") (Some "Time") (KStructPlain [368%N]) false None None None.
+Definition i41 : item := mkItem ("crux_time", 378%N) (Some "TimerFuture") (Some "TimerFuture") (KStructPlain [406%N; 407%N; 408%N]) false None None None.
+Definition i42 : item := mkItem ("crux_time", 398%N) (Some "Operation") (Some "Operation") KOther false None None None.
+Definition i43 : item := mkItem ("crux_time", 399%N) (Some "MappedSelf") (Some "MappedSelf") KOther false None None None.
+Definition i44 : item := mkItem ("crux_time", 406%N) (Some "timer_id") (Some "timer_id") KField false None (Some (FTypeName "TimerId")) None.
+Definition i45 : item := mkItem ("crux_time", 407%N) (Some "is_cleared") (Some "is_cleared") KField false None (Some (FPrim PBool)) None.
+Definition i46 : item := mkItem ("crux_time", 408%N) (Some "future") (Some "future") KField false None (Some FTodo) None.
+Definition i47 : item := mkItem ("crux_time", 431%N) (Some "Output") (Some "Output") KOther false None None None.
 Definition items : list item := [i0; i1; i2; i3; i4; i5; i6; i7; i8; i9; i10; i11; i12; i13; i14; i15; i16; i17; i18; i19; i20; i21; i22; i23; i24; i25; i26; i27; i28; i29; i30; i31; i32; i33; i34; i35; i36; i37; i38; i39; i40; i41; i42; i43; i44; i45; i46; i47].
 Definition edge_list : edges := [(i9, i19); (i9, i22); (i9, i25); (i9, i27); (i11, i30); (i15, i14); (i18, i16); (i18, i17); (i20, i11); (i21, i18); (i22, i20); (i22, i21); (i23, i11); (i24, i15); (i25, i23); (i25, i24); (i26, i11); (i27, i26); (i29, i32); (i29, i34); (i29, i36); (i29, i38); (i31, i18); (i32, i31); (i33, i11); (i34, i33); (i35, i11); (i36, i35); (i37, i11); (i38, i37)].
 Definition edge_flags : list (bool * bool) := [(false, true); (false, true); (false, true); (false, true); (true, false); (true, false); (true, false); (true, false); (false, false); (false, false); (true, false); (true, false); (false, false); (false, false); (true, false); (true, false); (false, false); (true, false); (false, true); (false, true); (false, true); (false, true); (false, false); (true, false); (false, false); (true, false); (false, false); (true, false); (false, false); (true, false)].
